@@ -139,6 +139,13 @@ def limits_case(ctx, form, mp, mm, cs, rng):
                 if isinstance(v, str) != (p["filename"] is None):
                     ctx.violation(f"file-part-and-field-confused|{factory.__name__}|{mode}", {"form": form, "max_parts": mp, "max_bytes": mm, "chunk": cs},
                                   f"part {p['name']!r} filename={p['filename']!r} came back as {type(v).__name__}")
+                elif isinstance(v, str) and not p.get("latin1_fn"):
+                    try:
+                        want = p["content"].decode("utf-8")
+                    except UnicodeDecodeError:
+                        want = p["content"].decode("latin-1")
+                    if v != want:  # the text of a field is the same however the body was cut into chunks
+                        ctx.violation(f"field-text-differs|{mode}", {"form": form if len(repr(form)) < 2000 else "large form", "chunk": cs}, f"{v[:60]!r} instead of {want[:60]!r}")
                 elif isinstance(v, LenSink) and len(v) != len(p["content"]):
                     ctx.violation(f"sink-total-differs|{factory.__name__}|{mode}", {"form": form, "chunk": cs}, f"{len(v)} vs {len(p['content'])}")
                 if isinstance(v, UploadFile):
